@@ -280,6 +280,51 @@ def normal_rules(chk, S, r3, fam):
     r3.require(ok, f"{nname}.identity_conditional", "A = identity (n x n), zero noise mean and covariance", f"{T.show(ic, 3)}", where, cfg)
     flush(env, r3, f"{nname}.identity_conditional", where, cfg)
     S.absorb(it)
+    # std = row norms of the Cholesky factor (units E * sigma per coefficient), un-flattened with the own tree_flatten
+    it = S.interp()
+    env = AD.AEnv()
+    it.ndim_oracle = env.rank_of
+    AD.install_vmap(it, env)
+    rv = mk_normal(it, env, fam, "rv", n, E)
+    sd = it.getattr(rv, "std", None)
+    ok = isinstance(sd, T.Term) and sd.op == "mcall" and sd.args[0] is rv.fields["tree_flatten"] and sd.args[1].startswith("unflatten_array") and len(sd.args) == 3
+    ts = env.of(sd.args[2]) if ok else None
+    want = AD.AT([AD.axis(fam.d), AD.axis(n, E)] if fam.name == "blockdiag" else [AD.axis(n, E)], SIG)
+    r3.require(True if (ok and ts is not None and AD.same_type(ts, want)) else (None if (ok and ts is None) else False), f"{nname}.std", f"row norms of the Cholesky factor : {AD.show(ts)}", f"std is {T.show(sd, 4)} : {AD.show(ts)}; expected per-coefficient norms {AD.show(want)}", where, cfg)
+    norms = [x for x in T.subterms(sd) if x.op in ("linalg.vector_norm", "linalg.qr_r")]
+    r3.require(len(norms) == 1 and "rv.chol" in T.atoms_of(norms[0]) and "rv.mean" not in T.atoms_of(sd), f"{nname}.std source", "computed from the Cholesky factor only", f"{T.show(sd, 4)}", where, cfg)
+    flush(env, r3, f"{nname}.std", where, cfg)
+    # to_derivative(i, std): linear map selects coefficient i, noise mean 0, noise std = std
+    it = S.interp()
+    env = AD.AEnv()
+    it.ndim_oracle = env.rank_of
+    AD.install_vmap(it, env)
+    rv = mk_normal(it, env, fam, "rv", n, E)
+    idx, ostd = A("idx"), T.atom("obs_std", array=True)
+    from .c11 import first_rec
+    from ..interp import WrappedFn
+    td = first_rec(call(it, method(it, rv, "to_derivative"), idx, ostd))
+    ok = td is not None
+    detail = "not a conditional"
+    if ok:
+        w = None
+        for t_ in T.subterms(td.fields["A"]):
+            if t_.op in ("jac_apply", "vmap_apply"):
+                cand = t_.args[0]
+                while isinstance(cand, WrappedFn) and isinstance(cand.fn, WrappedFn):
+                    cand = cand.fn
+                if isinstance(cand, WrappedFn):
+                    w = cand.fn
+        probe = A("probe")
+        sel = it.call(w, [probe], {}, "<harness>") if w is not None else None
+        gets = [g for g in T.subterms(sel) if g.op == "getitem" and g.args[1] is idx] if sel is not None else []
+        ok = len(gets) == 1 and "probe" in T.atoms_of(gets[0])
+        detail = f"selector({T.show(probe)}) = {T.show(sel, 4)}"
+        nm = td.fields["noise"]
+        okn = isinstance(nm, Rec) and "obs_std" in T.value_atoms(nm.fields["cholesky_flat"]) and not T.value_atoms(nm.fields["mean_flat"])
+        r3.require(okn, f"{nname}.to_derivative noise", "zero mean, standard deviation = std", f"noise = {T.show(nm, 4)}", where, cfg)
+    r3.require(ok, f"{nname}.to_derivative selector", "the linear map selects Taylor coefficient i", detail, where, cfg)
+    S.absorb(it)
 
 
 from fractions import Fraction  # noqa: E402
